@@ -443,6 +443,8 @@ func c22(c *an.Check) {
 	}())
 	// (d) the Opened announcement carries an epoch value read under the lock (covered by LOCKSET on seqno, incl. pointer dereferences)
 	releaseGates(c, "session")
+	clientCloseOnExit(c)
+	clientLockset(c)
 	clientEpochReset(c)
 	serverLockset(c)
 	c.Note("not decided: the full announcement-order history over all interleavings")
@@ -472,6 +474,7 @@ func c23(c *an.Check) {
 	// OWNCHECK: in Send, the local flag "my message occupies the outgoing slot" may only be cleared when the slot is
 	// known to be empty or to hold another message; otherwise an epoch change makes Send forget its own in-flight
 	// message and wait forever for a slot that only it can free.
+	clientRetryAndReset(c)
 	clientCloseOnExit(c)
 	ownCheck(c)
 	// the attach-order rule (shared with C22): a peer that has just attached must evaluate the session state before sleeping
@@ -615,6 +618,7 @@ func c24(c *an.Check) {
 		}
 		c.Require(nAdd == 1 && nDel == 1, "MUSTCALL", "signaling server Session registers its want and withdraws it on exit", h.sess, "", nAdd+nDel, "one insert on attach, one delete in the deferred cleanup", fmt.Sprintf("expected one insert and one delete of wantPeers in Session, found %d/%d", nAdd, nDel))
 	}
+	clientRetryAndReset(c)
 	releaseGates(c, "peer")
 	serverLockset(c)
 }
@@ -1087,6 +1091,78 @@ func clientCloseOnExit(c *an.Check) {
 		}
 	}
 	c.Require(okD, "MUSTCALL", "signaling client runs its close handler on every exit of the session routine", ex, "", 1, "defer { …; handleClose() } armed in execute", why)
+}
+
+// clientRetryAndReset: the client keeps trying while the application holds a reference — its per-peer session routines
+// are constructed with a backoff (not "no retry") option — and when the Listen stream restarts the controller forgets
+// the sessions it had opened for the previous stream (entry removed, not merely released), so the wants re-announced
+// by the new stream are acted upon.
+func clientRetryAndReset(c *an.Check) {
+	p := c.P
+	nc := p.Func(cliPkg, "", "NewClient")
+	okB, whyB := false, "NewClient not found"
+	if nc != nil {
+		whyB = "the per-peer session tracker container is not constructed with keyed.WithBackoff: with the default (nil) backoff configuration a failed session call is never retried"
+		for _, b := range nc.Blocks {
+			for _, ins := range b.Instrs {
+				call, ok := ins.(*ssa.Call)
+				if !ok {
+					continue
+				}
+				if fo := an.CallObj(call.Common()); fo != nil && fo.Name() == "WithBackoff" && fo.Pkg() != nil && strings.HasSuffix(fo.Pkg().Path(), "/keyed") {
+					okB = true
+				}
+			}
+		}
+	}
+	c.Require(okB, "CALLARG", "signaling client retries failed session calls (backoff option, nil-safe)", nc, "", 1, "keyed.WithBackoff(func → backoffConf.Construct())", whyB)
+	hp := p.Func(cliPkg, "Controller", "handlePeerWantsSession")
+	lsF := fv(c, cliPkg, "Controller", "listenSessions")
+	if hp == nil || lsF == nil {
+		c.Undecided("MUSTCALL", "signaling client controller forgets sessions on a Listen reset", nil, "unresolved anchor")
+		return
+	}
+	// every Release() of a tracked listen-session reference is accompanied by the deletion of its map entry (same function)
+	nRel, bad := 0, ""
+	for _, g := range an.WithClosures(hp) {
+		rel, del := false, false
+		for _, b := range g.Blocks {
+			for _, ins := range b.Instrs {
+				call, ok := ins.(*ssa.Call)
+				if !ok {
+					continue
+				}
+				if fo := an.CallObj(call.Common()); fo != nil && fo.Name() == "Release" {
+					if p.DependsOn(an.CallArgs(call.Common())[0], func(v ssa.Value) bool {
+						switch x := v.(type) {
+						case *ssa.Lookup:
+							return an.IsFieldLoad(x.X, lsF)
+						case *ssa.Next:
+							return true
+						}
+						return false
+					}) {
+						rel = true
+					}
+				}
+				if an.BuiltinName(call) == "delete" && an.IsFieldLoad(call.Call.Args[0], lsF) {
+					del = true
+				}
+			}
+		}
+		if rel {
+			nRel++
+			if !del {
+				bad = fmt.Sprintf("%s releases listen-session references without deleting their map entries: after a Listen restart the re-announced peer 'already exists' and its session is never re-opened", an.FuncName(g))
+			}
+		}
+	}
+	c.Require(bad == "" && nRel >= 1, "MUSTCALL", "signaling client controller deletes a listen-session entry whenever it releases it", hp, "", nRel, "Release() and delete(listenSessions, id) in the same helper", func() string {
+		if bad != "" {
+			return bad
+		}
+		return "no release of a tracked listen session found (anchor drift)"
+	}())
 }
 
 func ownCheck(c *an.Check) {
